@@ -426,7 +426,7 @@ class C38(Check):
 
     def run_shard(self, tier, seed, shard, nshards):
         res = ShardResult()
-        n = 1500 if tier == "thorough" else 80
+        n = 480 if tier == "thorough" else 80
         structured = shard % 2 == 0
         strat = gg.graph(voc(), depth=3, max_blocks=10) if structured else gg.random_cfg(voc(), nblocks=(1, 6))
         cnt = [0]
